@@ -12,7 +12,7 @@ All operation sequences of length <= 4 (quick: <= 3) over the alphabet
 
 Oracle (independent of the implementation's internals): the result of an operation must equal the result
 of the same query on equal data obtained from a FRESH environment of the same configuration with a freshly
-compiled query in a pristine process (computed once, in a forked child, before anything else runs), where
+compiled query in a pristine process (each reference result is computed in a forked child of its own, before anything else runs), where
 "configuration" = the set of functions registered so far on that very environment.  Documents are compared
 with a snapshot (serialisation and identity of every container) after every operation.  After a sequence
 that registered / subclassed, environment B (created before the sequence), DEFAULT_ENV, the module-level
@@ -40,8 +40,11 @@ from jsonpath_rfc9535.function_extensions import ExpressionType, FilterFunction 
 # the bounded space
 # ------------------------------------------------------------------------------------------------
 DOCS = {
-    "d0": [{"a": [1, 2, 3], "b": 2, "s": "ab"}, {"a": [5, [6]], "b": 1, "k": 1, "s": "abc"}, {"b": [4, {"b": 2}], "a": []}],
+    "d0": [{"a": [3, 1, 2], "b": 2, "s": "ab"}, {"a": [5, [6], 0], "b": 1, "k": 1, "s": "abc"}, {"b": [4, {"b": 2}], "a": []}],
+    # same shape as d0, other values under the paths the `$` sub-queries read
+    "d0x": [{"a": [3, 1, 2], "b": 2, "s": "ab"}, {"a": [5, [6], 0], "b": 4, "k": 1, "s": "abc"}, {"b": [4, {"b": 2}], "a": [9]}],
     "d1": {"k": 2, "x": [{"a": [3, 1], "b": 3}, {"a": [2], "b": 2}], "b": {"b": 1}, "a": [1, 2, 3]},
+    "d1x": {"k": 3, "x": [{"a": [3, 1], "b": 3}, {"a": [2], "b": 2}], "b": {"b": 1}, "a": [1, 2, 3]},
     "d2": [1, "a", None, [2], {"s": "az"}],
 }
 QUERIES = {
@@ -56,15 +59,15 @@ QUERIES = {
     "q_index": "$[0].a[2]",
 }
 FUNCTION_QUERIES = ["q_length", "q_desc_count", "q_match", "q_user_fn"]
-# reduced (query, document) pairs for the long sequences; the full product is used for length <= 3 in `thorough`
+# reduced (query, document) pairs for the long sequences; the full product is used for length <= 2 in `thorough`
 PAIRS_REDUCED = [
-    ("q_desc", "d0"), ("q_desc", "d1"), ("q_filter", "d0"), ("q_nested_root", "d0"), ("q_length", "d0"),
-    ("q_length", "d1"), ("q_desc_count", "d1"), ("q_match", "d0"), ("q_root_cmp", "d1"), ("q_user_fn", "d0"),
-    ("q_index", "d0"), ("q_match", "d2"),
+    ("q_desc", "d0"), ("q_desc", "d1"), ("q_filter", "d0"), ("q_nested_root", "d0"), ("q_nested_root", "d0x"),
+    ("q_length", "d0"), ("q_desc_count", "d1"), ("q_match", "d0"), ("q_root_cmp", "d1"), ("q_root_cmp", "d1x"),
+    ("q_user_fn", "d0"), ("q_index", "d0"),
 ]
 PAIRS_FULL = [(q, d) for q in QUERIES for d in DOCS]
 # core alphabet for the longest sequences (length 4)
-PAIRS_CORE = [("q_desc", "d1"), ("q_nested_root", "d0"), ("q_length", "d0"), ("q_desc_count", "d1"), ("q_match", "d0"),
+PAIRS_CORE = [("q_desc", "d1"), ("q_nested_root", "d0"), ("q_nested_root", "d0x"), ("q_length", "d0"), ("q_match", "d0"),
               ("q_user_fn", "d0")]
 CORE_COMPILE = ["q_desc", "q_nested_root", "q_length", "q_match", "q_user_fn"]
 LEAK_PROBES = [("q_length", "d0"), ("q_user_fn", "d0"), ("q_desc_count", "d1")]
@@ -153,22 +156,30 @@ def all_configs():
     return out + SUBCLASS_KINDS
 
 
-def compute_reference(_=None):
-    """(config, q, d) -> canonical outcome; (config, q) -> compile outcome.  Runs in a pristine child."""
-    ref = {}
+def _reference_entry(key):
+    """One reference result, computed in a process that has evaluated nothing else (maxtasksperchild=1)."""
+    parts = key.split("|")
+    cfg, q = parts[0], parts[1]
+    env = fresh_env(cfg)
+    if len(parts) == 2:
+        try:
+            env.compile(QUERIES[q])
+            return key, "ok"
+        except Exception as e:  # noqa: BLE001
+            return key, "ERR:" + type(e).__name__
+    doc = copy.deepcopy(DOCS[parts[2]])
+    return key, outcome(lambda: env.compile(QUERIES[q]).find(doc))
+
+
+def compute_reference(ctx):
+    """(config|q|d) -> canonical outcome; (config|q) -> compile outcome; every entry from a pristine process."""
+    keys = []
     for cfg in all_configs():
-        for q, text in QUERIES.items():
-            env = fresh_env(cfg)
-            try:
-                env.compile(text)
-                ref[f"{cfg}|{q}"] = "ok"
-            except Exception as e:  # noqa: BLE001
-                ref[f"{cfg}|{q}"] = "ERR:" + type(e).__name__
-            for d in DOCS:
-                env = fresh_env(cfg)
-                doc = copy.deepcopy(DOCS[d])
-                ref[f"{cfg}|{q}|{d}"] = outcome(lambda: env.compile(text).find(doc))  # noqa: B023
-    return ref
+        for q in QUERIES:
+            keys.append(f"{cfg}|{q}")
+            keys += [f"{cfg}|{q}|{d}" for d in DOCS]
+    with ctx.Pool(min(16, os.cpu_count() or 1), maxtasksperchild=1) as p:
+        return dict(p.imap_unordered(_reference_entry, keys, chunksize=1))
 
 
 def build_ops(pairs, compile_queries=None):
@@ -358,8 +369,7 @@ def _isolated(seq, ref):
 def run(tier: str, seed: int) -> dict:
     t0 = time.time()
     ctx = mp.get_context("fork")
-    with ctx.Pool(1) as p:                       # reference results from a pristine process
-        ref = p.apply(compute_reference)
+    ref = compute_reference(ctx)                 # every reference result from a pristine process of its own
     _G["ref"] = ref
     _G["ops"] = {"reduced": build_ops(PAIRS_REDUCED), "full": build_ops(PAIRS_FULL),
                  "core": build_ops(PAIRS_CORE, CORE_COMPILE)}
@@ -369,7 +379,7 @@ def run(tier: str, seed: int) -> dict:
         tasks += [(length, i, "reduced") for i in range(len(_G["ops"]["reduced"]))]
     if tier != "quick":
         tasks += [(4, i, "core") for i in range(len(_G["ops"]["core"]))]
-        for length in range(1, 4):
+        for length in range(1, 3):
             tasks += [(length, i, "full") for i in range(len(_G["ops"]["full"]))]
     tasks.sort(key=lambda t: -t[0])
     evaluations = nontrivial = 0
@@ -403,7 +413,7 @@ def run(tier: str, seed: int) -> dict:
                  "non-trivial when it has >= 2 operations and at least one of them returns a non-empty nodelist"),
         "samples": samples[:8],
         "bounds": {"max_sequence_length": max_len, "alphabet_for_length_le_3": n_red,
-                   "alphabet_full_for_length_le_3": n_full if tier != "quick" else None,
+                   "alphabet_full_for_length_le_2": n_full if tier != "quick" else None,
                    "alphabet_core_for_length_4": len(_G["ops"]["core"]) if tier != "quick" else None,
                    "leak_probes": LEAK_PROBES,
                    "queries": QUERIES, "documents": list(DOCS), "registrations": REGISTRATIONS,
